@@ -721,6 +721,7 @@ class Tag:
     def __exit__(self, exc_type: Any, exc_value: Any, traceback: Any) -> None:
         # If we got here, then self.prev_displayhook must be not None.
         sys.displayhook = cast(Callable[[object], None], self.prev_displayhook)
+        self.prev_displayhook = None
         sys.displayhook(self)
 
     def insert(self, index: SupportsIndex, x: TagChild) -> None:
